@@ -1,3 +1,4 @@
+import SieveModel.Generated.LexRules
 import SieveModel.Lemmas.Assoc
 import SieveModel.Lemmas.Gating
 import SieveModel.Lemmas.NoCrash
@@ -154,5 +155,10 @@ theorem custom_commands_are_typed (ds : List CmdDef) (hds : ∀ d ∈ ds, Typed.
       ∀ n ∈ r, Typed.NodeT (fun tok => tok ∈ lr.toks) (ds.foldl Table.register Generated.builtinTable) n :=
   Typed.accepted_tree_typed
     (registerAll_forall (fun d => Typed.reassignOK d = true) ds hds Generated.builtinTable (by decide +kernel)) text prev r h
+
+/-- the lexer rules of `sievelib/parser.py` (names, order, patterns, flags, white space) are the modelled ones -/
+theorem lexer_is_the_modelled_one :
+    Generated.lexRuleNames = TokKind.all.map TokKind.name ∧ Generated.lexRulePatterns = TokKind.patterns ∧
+      Generated.parserPatterns = TokKind.auxPatterns := by decide
 
 end C20
